@@ -131,3 +131,34 @@ pub fn replay(path: &str) -> Value {
     let _ = std::fs::remove_file(&tmp);
     json!({"summary":{"cases":cases,"checks":checks,"mismatches":bad,"terminal_cases_skipped":skipped_term}})
 }
+
+/// C09 on the REAL standard handles: the automatic decision for Stdout, StdoutLock, Stderr, StderrLock and the
+/// anstream::stdout()/stderr() streams of THIS process (the driver binds fd 1 and fd 2 to a pty or a pipe and knows
+/// which is which).  One JSON line per handle, written to `out`.
+pub fn std_term(out: &str) -> Value {
+    use std::io::Write;
+    colorchoice::ColorChoice::Auto.write_global();
+    let mut w = crate::out_file(out);
+    let so = std::io::stdout();
+    let se = std::io::stderr();
+    let mut obs: Vec<(&str, String)> = Vec::new();
+    obs.push(("stdout", choice_name(anstream::AutoStream::choice(&so)).to_string()));
+    obs.push(("stderr", choice_name(anstream::AutoStream::choice(&se)).to_string()));
+    {
+        let l = so.lock();
+        obs.push(("stdout-lock", choice_name(anstream::AutoStream::choice(&l)).to_string()));
+    }
+    {
+        let l = se.lock();
+        obs.push(("stderr-lock", choice_name(anstream::AutoStream::choice(&l)).to_string()));
+    }
+    obs.push(("anstream::stdout", choice_name(anstream::stdout().current_choice()).to_string()));
+    obs.push(("anstream::stderr", choice_name(anstream::stderr().current_choice()).to_string()));
+    obs.push(("anstream::stdout.lock", choice_name(anstream::stdout().lock().current_choice()).to_string()));
+    obs.push(("anstream::stderr.lock", choice_name(anstream::stderr().lock().current_choice()).to_string()));
+    for (h, d) in &obs {
+        writeln!(w, "{}", json!({"handle":h,"decision":d})).unwrap();
+    }
+    w.flush().unwrap();
+    json!({"summary":{"handles":obs.len()}})
+}
